@@ -9,6 +9,8 @@ cp $wt/seed/patch.diff $out/patch.diff
 cp $wt/seed/notes.md $out/notes.md 2>/dev/null
 cp $wt/tests/seed_demo.rs $out/seed_demo.rs 2>/dev/null || cp $wt/seed/seed_demo.rs $out/seed_demo.rs
 feat=""; grep -q "verif_hooks" $out/seed_demo.rs && feat="--features verif-hooks"
+# a demo may name the exact feature flags it needs on its first line: "// features: --no-default-features --features ml-dsa-65"
+ff=$(head -1 $out/seed_demo.rs | sed -n 's|^// features: *\(--.*\)$|\1|p'); [ -n "$ff" ] && feat="$ff"
 cd $wt
 export CARGO_NET_OFFLINE=true
 git stash -q -u 2>/dev/null; git stash drop -q 2>/dev/null; git checkout -q -- . ; git clean -qfd -e target
